@@ -146,6 +146,18 @@ def run(res, replay=None, visit_only=False):
                         else:
                             start = str(trng.below(max(1, len(img))))
                         script.append("cur %s %s %s" % (path, start, " ".join(seq)))
+            if visit_only:
+                # get_by_tag<Tag>(view, cursor) must behave exactly like the named cursor accessor: the same call
+                # sequences through both ("curt" = by tag), judged against the same model result
+                for (path, lv, val) in level_views(s, m, v)[:6]:
+                    mops = member_ops(s, lv)
+                    for _ in range(4 if path == "." else 2):
+                        seq = gen_sequence(trng, mops, 7)
+                        if not seq:
+                            continue
+                        start = "init" if trng.below(10) < 7 else str(trng.below(max(1, len(img))))
+                        script.append("cur %s %s %s" % (path, start, " ".join(seq)))
+                        script.append("curt %s %s %s" % (path, start, " ".join(seq)))
             crexp = {}
             if not visit_only:
                 # cursor_range / cursor_subrange(pos[, count]) over the groups of the root and of the first entries
@@ -193,7 +205,7 @@ def run(res, replay=None, visit_only=False):
                         script.append(" ".join([{"getf": "getft", "getb": "getbt", "ginfo": "ginfot", "dinfo": "dinfot"}[w[0]]] + w[1:]))
             names = expected_names(s, m, v)
             jobs.append((m, v, buf, script, len(img), names, len(mlines), len(ilines), cvexp, crexp))
-            mlines += [model_msg_line(s, m), "buf " + hx(buf)] + [x if not x.startswith("cvisit") else "use x" for x in script]
+            mlines += [model_msg_line(s, m), "buf " + hx(buf)] + [(x.replace("curt ", "cur ", 1) if x.startswith("curt ") else x) if not x.startswith("cvisit") else "use x" for x in script]
             ilines += ["use " + m.name, "buf " + hx(buf)] + script
         mout = model.run(mlines)
         for (cxx, std), exe in mc.exes.items():
